@@ -329,7 +329,10 @@ def check_reporters(case, acc, tmpdir):
     ds, _ = make_index(case, len(xs))
     df1 = pd.DataFrame({'Equity': xs}, index=ds)
     df2 = pd.DataFrame({'Equity': xs}, index=ds)
-    alloc = pd.DataFrame({'EQ:AAA': [0.5] * len(xs), 'EQ:BBB': [0.5] * len(xs)}, index=ds)
+    # like the frame a session hands over: no target allocation on the dates before the first rebalance (NaN in every column)
+    lead = [0, 0, 1, 3, len(xs) // 2][len(xs) % 5] if len(xs) > 3 else 0
+    alloc = pd.DataFrame({'EQ:AAA': [np.nan] * lead + [0.5] * (len(xs) - lead), 'EQ:BBB': [np.nan] * lead + [0.5] * (len(xs) - lead)},
+                         index=ds)
     n = len(xs)
     bench = [xs[n - 1 - i] * (1.0 + 0.001 * i) * 1.7 for i in range(n)]     # a different curve on the same dates
     df3 = pd.DataFrame({'Equity': bench}, index=ds)
@@ -474,6 +477,9 @@ def check_tearsheet_figure(case, acc):
     xs = case['equity']
     n = len(xs)
     lead = 15
+    if n % 2 == 0 and n >= 12:
+        # every other figure is drawn for the same curve started in mid-December: it spans a year end
+        case = dict(case, start='%s-12-%02d' % (case['start'][:4], 8 + n % 15))
     ds_b = business_dates(dt.date.fromisoformat(case['start']) - dt.timedelta(days=35), n + 40)
     ds_all, _ = make_index(case, n)
     first = ds_all[0]
@@ -499,6 +505,8 @@ def check_tearsheet_figure(case, acc):
         for t_ in panel[0].texts:
             x_, y_ = t_.get_position()
             texts[(round(x_, 2), round(y_, 1))] = t_.get_text()
+        yearly_ax = [ax for ax in fig.axes if ax.get_title() == 'Yearly Returns (%)']
+        bars = [float(p_.get_height()) for p_ in yearly_ax[0].patches] if yearly_ax else None
     finally:
         plt.show = old_show
         plt.close('all')
@@ -533,6 +541,22 @@ def check_tearsheet_figure(case, acc):
                 V('tearsheet-figure/%s/row%s' % (who, y_), 'the tearsheet prints %r for the %s curve; its own values give %.*f%s '
                   '(panel rows from the top: total return, CAGR, Sharpe, Sortino, volatility, max drawdown, duration)'
                   % (txt, who, nd, val * mult, suffix))
+    # the yearly bars of the figure are the tearsheet's yearly aggregate: one bar per calendar year of the strategy curve,
+    # each the compounded daily returns of that year, together compounding to the total return
+    if bars is not None:
+        by_year = {}
+        for i_, d_ in enumerate(ds_all):
+            y_ = pd.Timestamp(d_).year
+            r_ = 0.0 if i_ == 0 else xs[i_] / xs[i_ - 1] - 1.0
+            by_year[y_] = by_year.get(y_, 1.0) * (1.0 + r_)
+        want_bars = [(by_year[y_] - 1.0) * 100.0 for y_ in sorted(by_year)]
+        if len(bars) != len(want_bars) or any(abs(g_ - w_) > 1e-6 * (1.0 + abs(w_)) for g_, w_ in zip(bars, want_bars)):
+            V('tearsheet-figure/yearly-bars', 'the yearly bars of the rendered tearsheet are %s; the daily returns of the strategy '
+              'curve compound to %s per calendar year %s' % ([round(b_, 6) for b_ in bars][:6], [round(w_, 6) for w_ in want_bars][:6],
+                                                            sorted(by_year)[:6]))
+        acc.count('C17:tearsheet_yearly_bars_read', len(bars))
+        if len(bars) > 1:
+            acc.count('C17:tearsheet_figures_spanning_several_years')
     acc.count('C17:tearsheet_figures_read')
 
 
